@@ -44,7 +44,7 @@ func newWSHandler(host string, dial dialFunc, conn gkm.Gauge) http.Handler {
 			return
 		}
 
-		in, _, err := hj.Hijack()
+		in, buf, err := hj.Hijack()
 		if err != nil {
 			log.Printf("[ERROR] Hijack error for %s. %s", r.URL, err)
 			http.Error(w, "hijack error", http.StatusInternalServerError)
@@ -65,6 +65,16 @@ func newWSHandler(host string, dial dialFunc, conn gkm.Gauge) http.Handler {
 			log.Printf("[ERROR] Error copying request for %s. %s", r.URL, err)
 			http.Error(w, "error copying request", http.StatusInternalServerError)
 			return
+		}
+
+		// the http server may have read more than the request from the
+		// client. These bytes are in its buffer and no longer on the connection.
+		if n := buf.Reader.Buffered(); n > 0 {
+			early, _ := buf.Reader.Peek(n)
+			if _, err := out.Write(early); err != nil {
+				log.Printf("[ERROR] Error copying data sent with the request for %s. %s", r.URL, err)
+				return
+			}
 		}
 
 		// read the initial response to check whether we get an HTTP/1.1 101 ... response
